@@ -37,6 +37,7 @@ var trUnits = []*trUnit{
 		"Multiply", "newNormalizedPrices", "Prices.addPrice", "Prices.Insert", "NormalizedPrices.Price", "NormalizedPrices.Valuate",
 		"Prices.normalize", "Prices.Normalize",
 	}},
+	{pkg: "lib/journal", mod: "Journal", funcs: []string{"ComputePrices", "Valuate", "Filter", "CloseAccounts"}},
 }
 
 func (t *trTranslator) findFunc(p *trPkg, name string) *ast.FuncDecl {
@@ -73,9 +74,12 @@ func (t *trTranslator) findFunc(p *trPkg, name string) *ast.FuncDecl {
 
 // directEffect: the body needs the Outcome monad by itself
 func (t *trTranslator) directEffect(f *trFunc) bool {
+	return t.directEffectIn(f.pkg.info, f.decl.Body)
+}
+
+func (t *trTranslator) directEffectIn(info *types.Info, root ast.Node) bool {
 	eff := false
-	info := f.pkg.info
-	ast.Inspect(f.decl.Body, func(n ast.Node) bool {
+	ast.Inspect(root, func(n ast.Node) bool {
 		switch x := n.(type) {
 		case *ast.ForStmt:
 			eff = true
@@ -128,9 +132,12 @@ func (t *trTranslator) directEffect(f *trFunc) bool {
 }
 
 func (t *trTranslator) callees(f *trFunc) []*trFunc {
+	return t.calleesIn(f.pkg.info, f.decl.Body)
+}
+
+func (t *trTranslator) calleesIn(info *types.Info, root ast.Node) []*trFunc {
 	var res []*trFunc
-	info := f.pkg.info
-	ast.Inspect(f.decl.Body, func(n ast.Node) bool {
+	ast.Inspect(root, func(n ast.Node) bool {
 		call, ok := n.(*ast.CallExpr)
 		if !ok {
 			return true
@@ -202,6 +209,10 @@ func (t *trTranslator) translateFunc(f *trFunc) {
 	}
 	if errs := f.pkg.errorsIn(f.decl.Pos(), f.decl.End()); len(errs) > 0 {
 		trFail(errs[0].Pos, "uses a declaration outside the prelude and the translated packages: %s", errs[0].Msg)
+	}
+	if ret, cbs := t.closureCtor(f); ret != nil {
+		t.translateClosureCtor(f, ret, cbs)
+		return
 	}
 	c := &trCtx{t: t, fn: f, names: map[types.Object]string{}, used: map[string]bool{"fuel": true}}
 	sig := f.obj.Type().(*types.Signature)
